@@ -7,14 +7,19 @@ import AsynqModel.Lib.CacheKw
   (case cache <id> alru <maxsize> <default|const|sumParity|raw> <sig> <sig>..)   one <sig> per function decorated by the
   (case cache <id> perinst <sig> <sig>..)                                         ONE decorator object (function 0, 1, ..)
   (case cache <id> lazy <ttl> <t0>)
-  <sig> = ((args..) (defaults..) (kwonly..) ((name default)..) [<varargs 0|1> [<varkw 0|1>]])
+  <sig> = ((args..) (defaults..) (kwonly..) ((name default)..) [<varargs 0|1> [<varkw 0|1> [<po>]]])
           (varargs: the function has *rest; varkw: it has **opts - an OPEN signature, model Lib/CacheKw.lean: key `openKey`,
            reference key / binding `openRefKey` / `openBind`; a value token >= 1000 is the 2-tuple (name, value), and the
-           body reports named values, len(rest), rest, then the **opts items in name order)
+           body reports named values, len(rest), rest, then the **opts items in name order; po: how many of the named
+           positional parameters - `self` not counted - are positional-only, open signatures only)
   (obs <op> <res> <runs> <extra>)
-  <op>  = (call <inst> (args..) ((name value)..) <raises> <dur> <selfref> <fn>) | (drop <inst>) | (dirty <fn>) | (tick <d>)
+  <op>  = (call <inst> (args..) ((name value)..) <raises> <dur> <selfref> <fn> [<vk>]) | (drop <inst>) | (dirty <fn>) | (tick <d>)
           (<selfref> = the value the body returns refers to the instance; per-instance cases only, optional, default 0;
-           <fn> = which of the decorated functions, optional, default 0)
+           <fn> = which of the decorated functions, optional, default 0;
+           <vk> = what the body returns IF it runs: 0 (default) = a fresh object the harness identifies by identity, reported
+           as (ok <stamp> (args..)); k > 0 = the SINGLETON of kind k (1 = None, 2 = NotImplemented, 3 / 4 = qcore.caching.miss /
+           not_computed, 5 = False, 6 = 0, 7 = "", 8 = ()), reported as (okNone) for k = 1 and (okS k) otherwise - see
+           `resolveSingletons`)
   <runs> = body runs of the called function so far (drop: of all methods together)
   <extra> = per-instance: entries of the called method's dict (drop: of all methods together); lazy: the clock
   The models run are the families of Lib/CacheFam.lean (with one function they are the models of Lib/Cache.lean).
@@ -32,19 +37,22 @@ def pairs? : Sexp → Option (List (Nat × Nat))
     | _ => none
   | _ => none
 
-/-- a signature and whether it is OPEN (`**opts`) -/
-abbrev DSig := Sig × Bool
+/-- a signature, whether it is OPEN (`**opts`), and its number of positional-only parameters (without `self`) -/
+abbrev DSig := Sig × Bool × Nat
 
 def sig? : Sexp → Option DSig
   | .list [a, d, k, kd] => do
     some ({ args := (← a.natList?), defaults := (← d.natList?), kwonly := (← k.natList?), kwonlyDefaults := (← pairs? kd),
-            varargs := false }, false)
+            varargs := false }, false, 0)
   | .list [a, d, k, kd, va] => do
     some ({ args := (← a.natList?), defaults := (← d.natList?), kwonly := (← k.natList?), kwonlyDefaults := (← pairs? kd),
-            varargs := (← va.bool?) }, false)
+            varargs := (← va.bool?) }, false, 0)
   | .list [a, d, k, kd, va, vk] => do
     some ({ args := (← a.natList?), defaults := (← d.natList?), kwonly := (← k.natList?), kwonlyDefaults := (← pairs? kd),
-            varargs := (← va.bool?) }, (← vk.bool?))
+            varargs := (← va.bool?) }, (← vk.bool?), 0)
+  | .list [a, d, k, kd, va, vk, po] => do
+    some ({ args := (← a.natList?), defaults := (← d.natList?), kwonly := (← k.natList?), kwonlyDefaults := (← pairs? kd),
+            varargs := (← va.bool?) }, (← vk.bool?), (← po.nat?))
   | _ => none
 
 def keySpec? : Sexp → Option KeySpec
@@ -54,9 +62,13 @@ def keySpec? : Sexp → Option KeySpec
   | .atom "raw" => some .raw
   | _ => none
 
+/-- `(okS k)` on the wire: "the call returned the singleton of kind k" (no run is named) -/
+def singletonBase : Nat := 800000
+
 def res? : Sexp → Option Res
   | .list [.atom "ok", n, b] => do some (.ok ⟨(← n.nat?), (← b.natList?)⟩)
   | .list [.atom "okNone"] => some .okNone
+  | .list [.atom "okS", k] => do some (.ok ⟨singletonBase + (← k.nat?), []⟩)
   | .list [.atom "raisedUser", n] => n.nat?.map .raisedUser
   | .list [.atom "raisedType"] => some .raisedType
   | .list (.atom "raisedOther" :: _) => some .raisedOther
@@ -65,18 +77,21 @@ def res? : Sexp → Option Res
 
 /-- the generic wire operation -/
 inductive WOp where
-  | call (inst : Nat) (c : Call) (raises : Bool) (dur : Nat) (selfRef : Bool) (fn : Nat)
+  | call (inst : Nat) (c : Call) (raises : Bool) (dur : Nat) (selfRef : Bool) (fn : Nat) (vk : Nat)
   | drop (inst : Nat)
   | dirty (fn : Nat)
   | tick (d : Nat)
 
 def wop? : Sexp → Option WOp
   | .list [.atom "call", i, a, kw, r, d] => do
-    some (.call (← i.nat?) { args := (← a.natList?), kwargs := (← pairs? kw) } (← r.bool?) (← d.nat?) false 0)
+    some (.call (← i.nat?) { args := (← a.natList?), kwargs := (← pairs? kw) } (← r.bool?) (← d.nat?) false 0 0)
   | .list [.atom "call", i, a, kw, r, d, sr] => do
-    some (.call (← i.nat?) { args := (← a.natList?), kwargs := (← pairs? kw) } (← r.bool?) (← d.nat?) (← sr.bool?) 0)
+    some (.call (← i.nat?) { args := (← a.natList?), kwargs := (← pairs? kw) } (← r.bool?) (← d.nat?) (← sr.bool?) 0 0)
   | .list [.atom "call", i, a, kw, r, d, sr, f] => do
-    some (.call (← i.nat?) { args := (← a.natList?), kwargs := (← pairs? kw) } (← r.bool?) (← d.nat?) (← sr.bool?) (← f.nat?))
+    some (.call (← i.nat?) { args := (← a.natList?), kwargs := (← pairs? kw) } (← r.bool?) (← d.nat?) (← sr.bool?) (← f.nat?) 0)
+  | .list [.atom "call", i, a, kw, r, d, sr, f, vk] => do
+    some (.call (← i.nat?) { args := (← a.natList?), kwargs := (← pairs? kw) } (← r.bool?) (← d.nat?) (← sr.bool?) (← f.nat?)
+      (← vk.nat?))
   | .list [.atom "drop", i] => i.nat?.map .drop
   | .list [.atom "dirty"] => some (.dirty 0)
   | .list [.atom "dirty", f] => f.nat?.map .dirty
@@ -87,6 +102,49 @@ def line? : Sexp → Option (WOp × Obs)
   | .list [.atom "obs", op, r, runs, extra] => do
     some ((← wop? op), { res := (← res? r), runs := (← runs.nat?), extra := (← extra.nat?) })
   | _ => none
+
+/-! ### bodies that return a SINGLETON (None, NotImplemented, qcore's `miss`, False, 0, "", ()): values that defeat
+  sentinel / identity / truthiness shortcuts in a cache
+
+  The model's values are opaque tokens `⟨stamp, args⟩` = "the result of body run `stamp`"; the model never inspects one, so
+  its theorems hold whatever Python object a token stands for - None included.  The harness cannot tell WHICH run a
+  returned singleton comes from (all runs of kind k return the same object), so it reports `(okNone)` / `(okS k)`, and the
+  driver names it: if the model predicts "the result of run n" at this operation and run n's body returned the singleton
+  of kind k (by the script), the two are the SAME value and the implementation's observation is named `⟨n, args⟩`;
+  otherwise it stays an unnamed singleton (different from everything the observer expects: CORR=diff and a SPEC failure).
+  Any true naming is a faithful report; the body-run counter of the observation is untouched, so a cache that takes a
+  stored None for "absent" and runs the body again is `hit-ran-body`. -/
+
+/-- kind of every body run of the model: `((fn, stamp), vk)`; a run happened at a call whose run counter grew -/
+def runKinds (metas : List (Option (Nat × Nat))) (model : List Obs) : List ((Nat × Nat) × Nat) :=
+  let rec go (prev : List (Nat × Nat)) : List (Option (Nat × Nat)) → List Obs → List ((Nat × Nat) × Nat)
+    | some (f, vk) :: ms, ob :: obs =>
+      let before := (prev.lookup f).getD 0
+      let rest := go ((f, ob.runs) :: prev) ms obs
+      if ob.runs > before then ((f, ob.runs), vk) :: rest else rest
+    | none :: ms, _ :: obs => go prev ms obs
+    | _, _ => []
+  go [] metas model
+
+def singletonOf : Res → Option Nat
+  | .okNone => some 1
+  | .ok v => if v.stamp ≥ singletonBase && v.stamp < singletonBase + 100 && v.args.isEmpty then some (v.stamp - singletonBase) else none
+  | _ => none
+
+def resolveSingletons (metas : List (Option (Nat × Nat))) (model impl : List Obs) : List Obs :=
+  let kinds := runKinds metas model
+  let rec go : List (Option (Nat × Nat)) → List Obs → List Obs → List Obs
+    | some (f, _) :: ms, m :: mo, i :: io =>
+      let i' := match singletonOf i.res, m.res with
+        | some k, .ok v => if kinds.lookup (f, v.stamp) == some k then { i with res := .ok v } else i
+        | _, _ => i
+      i' :: go ms mo io
+    | _ :: ms, _ :: mo, i :: io => i :: go ms mo io
+    | _, _, io => io
+  go metas model impl
+
+def metaOf (l : WOp × Obs) : Option (Nat × Nat) :=
+  match l.1 with | .call _ _ _ _ _ f vk => some (f, vk) | _ => none
 
 def firstDiff (a b : List Obs) (i : Nat := 0) : Option (Nat × String) :=
   match a, b with
@@ -102,8 +160,10 @@ def clauseStr : Option Clause → String
 /-- `hyp` = does the case lie inside the hypotheses of the refinement theorem of its cache (C13_alru_refines /
     C13_alru_refines_keyfn, C13_per_instance_refines_partial, C13_lazy_refines)?  If it does, SPECM=ok is what the theorem says.
     `na` = the case contains a call the property does not speak about (Python cannot bind it because it passes too many
-    positional arguments or one parameter twice; ASSUMPTIONS of checks/c13.py, `C13_*_callOK_needed`): the observers are
-    not evaluated, only the correspondence is. -/
+    positional arguments, one parameter twice or a required positional-only parameter by keyword, yet a key is built for
+    it; ASSUMPTIONS of checks/c13.py, `C13_*_callOK_needed`, `openOutside`): the observers are not evaluated, only the
+    correspondence is.  (A VALID call with a keyword named like a positional-only parameter is outside `hyp` but inside
+    the property: the observers ARE evaluated - the open finding `C13_open_posonly_counterexample`.) -/
 def answer (id : Nat) (model impl : List Obs) (spec specm : String) (hyp : Bool) (na : Bool := false) : String :=
   let corr := firstDiff model impl
   let c := match corr with | none => "ok" | some _ => "diff"
@@ -118,62 +178,87 @@ def sigAt (sigs : List DSig) (f : Nat) : DSig := sigs.getD f default
 
 /-! key as written / reference key / binding / covered calls of one decorated function: the closed-signature model of
     Lib/Cache.lean, or - for a function with `**opts` under the default key - the open-signature model of Lib/CacheKw.lean -/
-def aMk (ks : KeySpec) (d : DSig) : Call → Option Key := if d.2 && ks == .default then alruOpenKey d.1 else alruKey ks d.1
-def aRk (ks : KeySpec) (d : DSig) : Call → Option Key := if d.2 && ks == .default then alruOpenRefKey d.1 else alruRefKey ks d.1
-def aBd (ks : KeySpec) (d : DSig) : Call → Option (List Nat) := if d.2 && ks == .default then alruOpenBind d.1 else alruBind d.1
-def aOK (d : DSig) (c : Call) : Bool := if d.2 then openCallOK d.1 d.1.args c else alruCallOK d.1 c
-def pMk (d : DSig) : Call → Option Key := if d.2 then perInstOpenKey d.1 else perInstKey d.1
-def pRk (d : DSig) : Call → Option Key := if d.2 then perInstOpenRefKey d.1 else perInstRefKey d.1
-def pBd (d : DSig) : Call → Option (List Nat) := if d.2 then perInstOpenBind d.1 else perInstBind d.1
-def pOK (d : DSig) (c : Call) : Bool := if d.2 then openCallOK d.1 (d.1.args.drop 1) c else perInstCallOK d.1 c
+def isOpen (ks : KeySpec) (d : DSig) : Bool := d.2.1 && ks == .default
+def aMk (ks : KeySpec) (d : DSig) : Call → Option Key := if isOpen ks d then alruOpenKey d.1 else alruKey ks d.1
+def aRk (ks : KeySpec) (d : DSig) : Call → Option Key := if isOpen ks d then alruOpenRefKey d.1 d.2.2 else alruRefKey ks d.1
+def aBd (ks : KeySpec) (d : DSig) : Call → Option (List Nat) := if isOpen ks d then alruOpenBind d.1 d.2.2 else alruBind d.1
+def aOK (d : DSig) (c : Call) : Bool := if d.2.1 then openCallOK d.1 d.2.2 d.1.args c else alruCallOK d.1 c
+/-- the call is OUTSIDE the property (Python cannot bind it, yet a key is built for it) -/
+def aOut (d : DSig) (c : Call) : Bool := if d.2.1 then openOutside d.1 d.2.2 d.1.args c && !kwSelf c else !alruCallOK d.1 c
+/-- a VALID call with a keyword named like a positional-only parameter (the open finding) -/
+def aPoKw (d : DSig) (c : Call) : Bool :=
+  d.2.1 && !poClean d.2.2 d.1.args c && (alruOpenRefKey d.1 d.2.2 c).isSome
+def pMk (d : DSig) : Call → Option Key := if d.2.1 then perInstOpenKey d.1 else perInstKey d.1
+def pRk (d : DSig) : Call → Option Key := if d.2.1 then perInstOpenRefKey d.1 d.2.2 else perInstRefKey d.1
+def pBd (d : DSig) : Call → Option (List Nat) := if d.2.1 then perInstOpenBind d.1 d.2.2 else perInstBind d.1
+def pOK (d : DSig) (c : Call) : Bool := if d.2.1 then openCallOK d.1 d.2.2 (d.1.args.drop 1) c else perInstCallOK d.1 c
+def pOut (d : DSig) (c : Call) : Bool :=
+  if d.2.1 then openOutside d.1 d.2.2 (d.1.args.drop 1) c && !kwSelf c else !perInstCallOK d.1 c
+def pPoKw (d : DSig) (c : Call) : Bool :=
+  d.2.1 && !poClean d.2.2 (d.1.args.drop 1) c && (perInstOpenRefKey d.1 d.2.2 c).isSome
+
+/-- the clauses a wrong KEY can make an observation violate -/
+def keyClause : Option Clause → Bool
+  | some .foreignValue | some .hitRanBody | some .hitWrongValue | some .staleValue => true
+  | _ => false
+
+/-- the recorded defect `C13_open_posonly_counterexample`, told apart from every other way of failing these clauses: the
+    case contains a valid call with a keyword named like a positional-only parameter AND the observations are exactly
+    those of the model of the code as it is -/
+def poTag (sp : Option Clause) (hasPoKw same : Bool) : String :=
+  if keyClause sp && hasPoKw && same then "+keyword-named-like-positional-only-parameter" else ""
 
 /-- `hyp`: inside the hypotheses of C13_alru_shared_decorator_refines / _keyfn (with one function:
     C13_alru_refines / C13_alru_refines_keyfn; a function with `**opts`: C13_alru_open_signature_refines) -/
 def handleAlru (id cap : Nat) (ks : KeySpec) (sigs : List DSig) (lines : List (WOp × Obs)) : String :=
   match lines.mapM (fun (l : WOp × Obs) => match l.1 with
-      | .call _ c r _ _ f => some ({ fn := f, op := { c := c, raises := r } } : Alru.Fam.Op) | _ => none) with
+      | .call _ c r _ _ f _ => some ({ fn := f, op := { c := c, raises := r } } : Alru.Fam.Op) | _ => none) with
   | none => unparsable id
   | some ops =>
-    let impl := lines.map (·.2)
     let mk := fun f => aMk ks (sigAt sigs f)
     let rk := fun f => aRk ks (sigAt sigs f)
     let bd := fun f => aBd ks (sigAt sigs f)
     let model := Alru.Fam.run mk bd (Alru.Fam.init cap) ops
+    let impl := resolveSingletons (lines.map metaOf) model (lines.map (·.2))
     let sp := Alru.Fam.specClause rk bd cap ops impl
     let callsOK := ks != .default || ops.all fun o => aOK (sigAt sigs o.fn) o.op.c
+    let outside := ks == .default && ops.any fun o => aOut (sigAt sigs o.fn) o.op.c
     let hyp := decide (1 ≤ cap) && callsOK
-    let tag := ""
-    answer id model impl (clauseStr sp ++ tag) (clauseStr (Alru.Fam.specClause rk bd cap ops model)) hyp (!callsOK)
+    let tag := poTag sp (ks == .default && ops.any fun o => aPoKw (sigAt sigs o.fn) o.op.c) (model == impl)
+    answer id model impl (clauseStr sp ++ tag) (clauseStr (Alru.Fam.specClause rk bd cap ops model)) hyp outside
 
 /-- `hyp`: inside the hypotheses of C13_per_instance_shared_decorator_refines_partial -/
 def handlePerInst (id : Nat) (sigs : List DSig) (lines : List (WOp × Obs)) : String :=
   match lines.mapM (fun (l : WOp × Obs) => match l.1 with
-      | .call i c r _ sr f => some (PerInst.Fam.Op.call f i c r sr) | .drop i => some (.drop i) | _ => none) with
+      | .call i c r _ sr f _ => some (PerInst.Fam.Op.call f i c r sr) | .drop i => some (.drop i) | _ => none) with
   | none => unparsable id
   | some ops =>
-    let impl := lines.map (·.2)
     let nfn := sigs.length
     let mk := fun f => pMk (sigAt sigs f)
     let rk := fun f => pRk (sigAt sigs f)
     let bd := fun f => pBd (sigAt sigs f)
     let model := PerInst.Fam.run nfn mk bd PerInst.Fam.init ops
+    let impl := resolveSingletons (lines.map metaOf) model (lines.map (·.2))
     let callsOK := ops.all fun op => match op with | .call f _ c _ _ => pOK (sigAt sigs f) c | .drop _ => true
+    let outside := ops.any fun op => match op with | .call f _ c _ _ => pOut (sigAt sigs f) c | .drop _ => false
+    let hasPoKw := ops.any fun op => match op with | .call f _ c _ _ => pPoKw (sigAt sigs f) c | .drop _ => false
     let hyp := callsOK && PerInst.Fam.noSelfRef ops
     let sp := PerInst.Fam.specClause nfn rk bd ops impl
     -- the observations are exactly those of the model, which keeps the entries of a dropped instance that a value
     -- cached by one of the methods refers to: the recorded defect, told apart from every other way of failing `instances`
-    let tag := if sp == some .instances && !PerInst.Fam.noSelfRef ops && model == impl then "+cached-value-refers-to-instance" else ""
-    answer id model impl (clauseStr sp ++ tag) (clauseStr (PerInst.Fam.specClause nfn rk bd ops model)) hyp (!callsOK)
+    let tag := if sp == some .instances && !PerInst.Fam.noSelfRef ops && model == impl then "+cached-value-refers-to-instance"
+               else poTag sp hasPoKw (model == impl)
+    answer id model impl (clauseStr sp ++ tag) (clauseStr (PerInst.Fam.specClause nfn rk bd ops model)) hyp outside
 
 /-- `hyp`: inside the hypotheses of C13_lazy_shared_decorator_refines -/
 def handleLazy (id ttl t0 : Nat) (lines : List (WOp × Obs)) : String :=
   match lines.mapM (fun (l : WOp × Obs) => match l.1 with
-      | .call _ _ r d _ f => some (Lazy.Fam.Op.call f r d) | .dirty f => some (.dirty f) | .tick d => some (.tick d)
+      | .call _ _ r d _ f _ => some (Lazy.Fam.Op.call f r d) | .dirty f => some (.dirty f) | .tick d => some (.tick d)
       | _ => none) with
   | none => unparsable id
   | some ops =>
-    let impl := lines.map (·.2)
     let model := Lazy.Fam.run ttl (Lazy.Fam.init t0) ops
+    let impl := resolveSingletons (lines.map metaOf) model (lines.map (·.2))
     answer id model impl (clauseStr (Lazy.Fam.specClause ttl t0 ops impl)) (clauseStr (Lazy.Fam.specClause ttl t0 ops model))
       (decide (1 ≤ t0))
 
